@@ -12,6 +12,7 @@ git -C /repo worktree add -q --detach $WT HEAD || exit 2
 res="{}"
 cd $WT
 cp "$DIR/$DEMO" "$DEST/" || { echo "cannot copy demo"; }
+for x in ${EXTRA:-}; do cp "$DIR/$x" "$DEST/"; done
 without=$(go test ${RACE:+-race} -vet=off -count=1 -run "$RUN" ./$DEST/ 2>&1 | tail -3)
 echo "$without" | grep -q "^ok" && W=pass || W=FAIL
 git apply "$DIR/patch.diff" || { echo "PATCH DOES NOT APPLY"; git -C /repo worktree remove --force $WT; exit 3; }
@@ -19,6 +20,7 @@ go build ./... 2>&1 | tail -3; B=$?
 with=$(go test ${RACE:+-race} -vet=off -count=1 -run "$RUN" ./$DEST/ 2>&1 | tail -5)
 echo "$with" | grep -q "FAIL" && X=fail || X=PASS
 rm -f "$DEST/$DEMO"
+for x in ${EXTRA:-}; do rm -f "$DEST/$x"; done
 base=$(go test -vet=off -count=1 ./... 2>&1 | grep -v "no test files" | grep -vc "^ok")
 cd /verif
 git -C /repo worktree remove --force $WT
@@ -39,6 +41,7 @@ rm -rf /tmp/seedverif_$$
 echo "detected_by:${det:- NONE}"
 mkdir -p seeded/$ID
 cp "$DIR/patch.diff" "$DIR/$DEMO" seeded/$ID/
+for x in ${EXTRA:-}; do cp "$DIR/$x" seeded/$ID/; done
 python3 - "$ID" "$DIR" "$W" "$X" "$base" "$det" "$DEST" "$RUN" <<'PY'
 import json,sys
 id,d,w,x,base,det,dest,run=sys.argv[1:9]
